@@ -1,1 +1,741 @@
-fn main() {}
+//! C02 — call glue follows the canonical calling convention.
+//! `abi::call` for every (variant, direction, async flag) under the interpreting
+//! Bindgen, executed with a scripted callee; judged against the reference
+//! signature / parameter passing / result passing of `cabi-ref`.
+use abi_interp::cmp::*;
+use abi_interp::corpus::*;
+use abi_interp::harness::*;
+use abi_interp::ir::*;
+use abi_interp::machine::*;
+use abi_interp::mem::*;
+use abi_interp::runs::*;
+use cabi_ref::{Abi, CoreSig, CoreTy, CoreVal, GenCfg, SigKind, Val};
+use serde_json::json;
+use vkit::{hash64, Args, Report, Rng};
+use wit_bindgen_core::abi::{AbiVariant, LiftLower, WasmSignature, WasmType};
+use wit_bindgen_core::wit_parser::{Function, FunctionKind, Type};
+
+#[derive(Clone, Copy, PartialEq, Eq, Debug)]
+enum Tier {
+    /// a calling convention is defined: fully judged
+    Judged,
+    /// host-side / unimplemented but coherent: parameter side judged, only
+    /// whitelisted explicit `todo!()`s tolerated
+    ParamsOnly,
+    /// the async flag contradicts the variant (or async lowering through
+    /// `abi::call`, which no backend uses): no convention exists; any panic is
+    /// counted as unsupported, successful runs get the parameter-side checks
+    Incoherent,
+}
+
+fn tier(v: AbiVariant, ll: LiftLower, a: bool) -> Tier {
+    use AbiVariant::*;
+    use LiftLower::*;
+    match (v, ll, a) {
+        (GuestImport, LowerArgsLiftResults, false) => Tier::Judged,
+        (GuestImport, LiftArgsLowerResults, false) => Tier::Judged,
+        (GuestExport, LowerArgsLiftResults, false) => Tier::Judged,
+        (GuestExport, LiftArgsLowerResults, false) => Tier::Judged,
+        // the C# backend generates async exports with the sync variant + async flag
+        (GuestExport, LiftArgsLowerResults, true) => Tier::Judged,
+        (GuestExportAsync, LiftArgsLowerResults, true) => Tier::Judged,
+        (GuestExportAsyncStackful, LiftArgsLowerResults, true) => Tier::Judged,
+        // host side of an async import: wit-bindgen's own convention (results flat
+        // when they fit MAX_FLAT_ASYNC_PARAMS, else through the return pointer)
+        (GuestImportAsync, LiftArgsLowerResults, true) => Tier::Judged,
+        (GuestExportAsync, LowerArgsLiftResults, true) => Tier::ParamsOnly,
+        (GuestExportAsyncStackful, LowerArgsLiftResults, true) => Tier::ParamsOnly,
+        _ => Tier::Incoherent,
+    }
+}
+
+fn sig_kind(v: AbiVariant) -> SigKind {
+    match v {
+        AbiVariant::GuestImport => SigKind::SyncLower,
+        AbiVariant::GuestExport => SigKind::SyncLift,
+        AbiVariant::GuestImportAsync => SigKind::AsyncLower,
+        AbiVariant::GuestExportAsync => SigKind::AsyncLiftCallback,
+        AbiVariant::GuestExportAsyncStackful => SigKind::AsyncLiftStackful,
+    }
+}
+
+fn is_export(v: AbiVariant) -> bool {
+    matches!(v, AbiVariant::GuestExport | AbiVariant::GuestExportAsync | AbiVariant::GuestExportAsyncStackful)
+}
+
+/// Fixed whitelist of unsupported-by-design combinations with an explicit
+/// `todo!()` / `unreachable!()` in `abi.rs`: (variant, direction, async, condition, panic-signature prefix, what)
+const EXPLICIT: &[(&str, &str, &str, &str, &str, &str)] = &[
+    ("GuestImportAsync", "lower", "*", "indirect-params", "panic:core/abi.rs:call:not-yet-implemented:-direct-param-lowering", "todo!(\"direct param lowering for async guest import not implemented\")"),
+    ("GuestExportAsync", "lower", "*", "indirect-params", "panic:core/abi.rs:call:not-yet-implemented:-direct-param-lowering", "todo!(\"direct param lowering for async not implemented\")"),
+    ("GuestExportAsyncStackful", "lower", "*", "indirect-params", "panic:core/abi.rs:call:not-yet-implemented:-direct-param-lowering", "todo!(\"direct param lowering for async not implemented\")"),
+    ("GuestExportAsyncStackful", "lift", "true", "result-flat>16", "panic:core/abi.rs:call:not-yet-implemented:-stackful-exports", "todo!(\"stackful exports are not yet supported\")"),
+    ("GuestImportAsync", "lower", "*", "retptr", "panic:core/abi.rs:call:internal-error:-entered-unreachable-code", "unreachable!() reading results of an async variant through a return pointer"),
+    ("GuestExportAsync", "lower", "*", "retptr", "panic:core/abi.rs:call:internal-error:-entered-unreachable-code", "unreachable!() reading results of an async variant through a return pointer"),
+    ("GuestExportAsyncStackful", "lower", "*", "retptr", "panic:core/abi.rs:call:internal-error:-entered-unreachable-code", "unreachable!() reading results of an async variant through a return pointer"),
+    ("GuestImport", "lift", "*", "result-to-memory-without-retptr", "panic:core/abi.rs:call:internal-error:-entered-unreachable-code", "unreachable!(\"lowering to memory cannot be performed without a return pointer\")"),
+    ("GuestImportAsync", "lift", "*", "result-to-memory-without-retptr", "panic:core/abi.rs:call:internal-error:-entered-unreachable-code", "unreachable!(\"lowering to memory cannot be performed without a return pointer\")"),
+];
+
+struct Combo {
+    v: AbiVariant,
+    ll: LiftLower,
+    a: bool,
+}
+
+impl Combo {
+    fn name(&self) -> String {
+        format!("{}:{}:{}", variant_name(self.v), ll_name(self.ll), if self.a { "async" } else { "sync" })
+    }
+}
+
+struct CallHost<'a> {
+    abi: Abi<'a>,
+    func: &'a Function,
+    ptys: Vec<Type>,
+    variant: AbiVariant,
+    refsig: CoreSig,
+    result_val: Option<Val>,
+    got_params: Option<Vec<Val>>,
+    problems: Vec<(String, String)>,
+    task_return: Vec<Result<Option<Val>, String>>,
+    task_return_types: Vec<Vec<CoreTy>>,
+    callee_result_block: Option<u64>,
+    self_ptr: bool,
+}
+
+impl<'a> CallHost<'a> {
+    fn problem(&mut self, class: &str, detail: String) {
+        self.problems.push((class.to_string(), detail));
+    }
+}
+
+impl<'a> Host for CallHost<'a> {
+    fn call_wasm(&mut self, mem: &mut Mem, _name: &str, sig: &WasmSignature, args: &[CoreVal]) -> Result<Vec<CoreVal>, String> {
+        let w = self.abi.ptr;
+        let mut sp: Vec<CoreTy> = sig.params.iter().map(|t| core_of(*t, w)).collect();
+        let sr: Vec<CoreTy> = sig.results.iter().map(|t| core_of(*t, w)).collect();
+        if self.self_ptr && !sp.is_empty() && !self.refsig.indirect_params {
+            sp[0] = CoreTy::I32; // exported method `self`: wit-parser models the rep as a pointer
+        }
+        if sp != self.refsig.params || sr != self.refsig.results || sig.indirect_params != self.refsig.indirect_params || sig.retptr != self.refsig.retptr {
+            self.problem(
+                "core-signature",
+                format!(
+                    "CallWasm signature params {:?} results {:?} indirect={} retptr={}; reference params {:?} results {:?} indirect={} retptr={}",
+                    sig.params, sig.results, sig.indirect_params, sig.retptr, self.refsig.params, self.refsig.results, self.refsig.indirect_params, self.refsig.retptr
+                ),
+            );
+            return Err("core signature differs from the reference".into());
+        }
+        // lift the parameters the way a spec-conforming callee would
+        let mut got = vec![];
+        if self.refsig.indirect_params {
+            let p = args[0].bits();
+            let offs = self.abi.field_offsets(&self.ptys);
+            for (t, o) in self.ptys.iter().zip(offs) {
+                got.push(self.abi.load(mem, t, p + o as u64)?);
+            }
+        } else {
+            let n: usize = self.ptys.iter().map(|t| self.abi.flatten(t).len()).sum();
+            let mut flat = args[..n].to_vec();
+            if self.self_ptr && !flat.is_empty() {
+                flat[0] = CoreVal::I32(flat[0].bits() as u32);
+            }
+            let mut it = flat.iter();
+            for t in &self.ptys {
+                got.push(self.abi.lift_flat(mem, &mut it, t)?);
+            }
+        }
+        self.got_params = Some(got);
+        mem.trait_kind = BlockKind::Harness;
+        let rty = self.func.result;
+        let mut out = vec![];
+        match self.variant {
+            AbiVariant::GuestImport | AbiVariant::GuestImportAsync => {
+                if self.refsig.retptr {
+                    let p = args[args.len() - 1].bits();
+                    if let (Some(t), Some(v)) = (&rty, &self.result_val) {
+                        self.abi.store(mem, v, t, p)?;
+                    }
+                } else if let (Some(t), Some(v)) = (&rty, &self.result_val) {
+                    if self.variant == AbiVariant::GuestImport {
+                        out = self.abi.lower_flat(mem, v, t)?;
+                    }
+                }
+                if self.variant == AbiVariant::GuestImportAsync {
+                    out = vec![CoreVal::I32(2)];
+                }
+            }
+            AbiVariant::GuestExport => {
+                if let (Some(t), Some(v)) = (&rty, &self.result_val) {
+                    if self.refsig.retptr {
+                        let (s, a) = self.abi.record_layout(&[*t]);
+                        let p = mem.alloc(s.max(1), a, BlockKind::Harness, "callee-result").map_err(|e| e.text())?;
+                        self.abi.store(mem, v, t, p)?;
+                        self.callee_result_block = Some(p);
+                        out = vec![CoreVal::from_bits(core_of(WasmType::Pointer, w), p)];
+                    } else {
+                        out = self.abi.lower_flat(mem, v, t)?;
+                    }
+                }
+            }
+            AbiVariant::GuestExportAsync => out = vec![CoreVal::I32(0)],
+            AbiVariant::GuestExportAsyncStackful => {}
+        }
+        Ok(out)
+    }
+
+    fn call_interface(&mut self, _name: &str, args: Vec<Val>, _has_result: bool, _async_: bool) -> Result<Option<Val>, String> {
+        self.got_params = Some(args);
+        Ok(self.result_val.clone())
+    }
+
+    fn task_return(&mut self, mem: &mut Mem, _name: &str, params: &[WasmType], args: &[CoreVal]) -> Result<(), String> {
+        let w = self.abi.ptr;
+        self.task_return_types.push(params.iter().map(|t| core_of(*t, w)).collect());
+        let r = match &self.func.result {
+            None => Ok(None),
+            Some(t) => {
+                let flat = self.abi.flatten(t);
+                if flat.len() > cabi_ref::MAX_FLAT_PARAMS {
+                    match args.first() {
+                        Some(p) => self.abi.load(mem, t, p.bits()).map(Some),
+                        None => Err("no pointer argument".to_string()),
+                    }
+                } else {
+                    self.abi.lift_flat(mem, &mut args.iter(), t).map(Some)
+                }
+            }
+        };
+        self.task_return.push(r);
+        Ok(())
+    }
+}
+
+struct Ctxt<'a> {
+    unit: &'a Unit,
+    ctx: &'a Ctx<'a>,
+    path: &'a str,
+    func: &'a Function,
+}
+
+fn replay_of(c: &Ctxt, combo: &Combo, width: usize, policy: CanonPolicy, vals: Option<(&[Val], &Option<Val>)>) -> serde_json::Value {
+    json!({
+        "unit": c.unit.label, "wit": c.unit.wit, "synthetic": c.unit.synthetic, "path": c.path, "width": width, "policy": policy.name(),
+        "mode": combo.name(),
+        "value": vals.map(|(p, r)| json!({"params": p.iter().map(|v| v.text()).collect::<Vec<_>>(), "result": r.as_ref().map(|v| v.text())})),
+    })
+}
+
+fn violation(rep: &mut Report, c: &Ctxt, combo: &Combo, width: usize, policy: CanonPolicy, class: &str, detail: &str, vals: Option<(&[Val], &Option<Val>)>) {
+    let sig = format!("call:{}:{class}", combo.name());
+    rep.count("failures");
+    if rep.has_violation(&sig) {
+        return;
+    }
+    let abi = Abi::new(c.ctx.resolve, width);
+    let tys: Vec<Type> = c.func.params.iter().map(|p| p.ty).chain(c.func.result).collect();
+    if tys.iter().any(|t| outside_encodable_domain(&abi, t)) {
+        rep.inconclusive("outside encodable domain (flags with 0 or >32 members) in a call signature");
+        return;
+    }
+    if let Some(d) = tys.iter().find_map(|t| layout_disagreement(c.ctx, &abi, t)) {
+        rep.inconclusive(&format!("reference or wit-parser suspect — triage first: {}", shorten(&d, 200)));
+        return;
+    }
+    let fsig = format!(
+        "({}){}",
+        c.func.params.iter().map(|p| shorten(&abi.shape_key(&p.ty), 40)).collect::<Vec<_>>().join(","),
+        c.func.result.map(|t| format!("->{}", shorten(&abi.shape_key(&t), 60))).unwrap_or_default()
+    );
+    rep.violation(&sig, &format!("{detail} [func {} {} width {width} policy {}]", c.path, shorten(&fsig, 400), policy.name()), replay_of(c, combo, width, policy, vals));
+}
+
+fn conditions(refsig: &CoreSig, abi: &Abi, func: &Function, combo: &Combo) -> Vec<&'static str> {
+    let mut out = vec![];
+    if refsig.indirect_params {
+        out.push("indirect-params");
+    }
+    if refsig.retptr {
+        out.push("retptr");
+    }
+    let nr = func.result.map(|t| abi.flatten(&t).len()).unwrap_or(0);
+    if nr > 16 {
+        out.push("result-flat>16");
+    }
+    if func.result.is_some() && !refsig.retptr && matches!(combo.v, AbiVariant::GuestImport | AbiVariant::GuestImportAsync) {
+        out.push("result-to-memory-without-retptr");
+    }
+    out
+}
+
+fn check_func(rep: &mut Report, c: &Ctxt, seed: u64, nsets: usize, only: Option<&serde_json::Value>) {
+    let resolve = c.ctx.resolve;
+    let abi4 = Abi::new(resolve, 4);
+    let ptys: Vec<Type> = c.func.params.iter().map(|p| p.ty).collect();
+    let key = format!(
+        "{}->{}",
+        ptys.iter().map(|t| abi4.shape_key(t)).collect::<Vec<_>>().join(","),
+        c.func.result.map(|t| abi4.shape_key(&t)).unwrap_or_default()
+    );
+    rep.distinct(&key);
+    let nparams_flat: usize = ptys.iter().map(|t| abi4.flatten(t).len()).sum();
+    let nres_flat = c.func.result.map(|t| abi4.flatten(&t).len()).unwrap_or(0);
+    rep.count(&format!("flat-params:{}", match nparams_flat { 0..=3 => "0-3", 4 => "4", 5 => "5", 6..=14 => "6-14", 15 => "15", 16 => "16", 17 => "17", _ => "18+" }));
+    rep.count(&format!("flat-results:{}", match nres_flat { 0 => "0", 1 => "1", 2 => "2", 3..=15 => "3-15", 16 => "16", 17 => "17", _ => "18+" }));
+    let h = hash64(format!("{}/{}", c.unit.label, c.path).as_bytes());
+    let mut rng = Rng::new(seed ^ h);
+    let policy = match only.and_then(|o| o["policy"].as_str()).and_then(CanonPolicy::parse) {
+        Some(p) => p,
+        None => CanonPolicy::ALL[(h % 3) as usize],
+    };
+    let self_method = matches!(c.func.kind, FunctionKind::Method(_) | FunctionKind::AsyncMethod(_));
+    let gcfg = GenCfg { max_list: 3, ..Default::default() };
+
+    for v in VARIANTS {
+        for ll in [LiftLower::LowerArgsLiftResults, LiftLower::LiftArgsLowerResults] {
+            for a in [false, true] {
+                let combo = Combo { v, ll, a };
+                if let Some(o) = only {
+                    if o["mode"].as_str().map(|m| m != combo.name()).unwrap_or(false) {
+                        continue;
+                    }
+                }
+                let t = tier(v, ll, a);
+                let kind = sig_kind(v);
+                let ref4 = abi4.signature(&ptys, c.func.result.as_ref(), kind);
+                let prog = match record_call(resolve, v, ll, c.func, a, policy) {
+                    Ok(p) => p,
+                    Err(e) => {
+                        rep.eval();
+                        let sig = e.sig();
+                        let conds = conditions(&ref4, &abi4, c.func, &combo);
+                        let explicit = EXPLICIT.iter().find(|w| {
+                            w.0 == variant_name(v) && w.1 == ll_name(ll) && (w.2 == "*" || w.2 == a.to_string()) && conds.contains(&w.3) && sig.starts_with(w.4)
+                        });
+                        match (explicit, t) {
+                            (Some(w), _) => rep.count(&format!("unsupported-by-design:{}:{}:{}:{}", w.0, w.1, if a { "async" } else { "sync" }, w.3)),
+                            (None, Tier::Incoherent) => rep.count(&format!("unsupported-undefined:{}:{}", combo.name(), sig)),
+                            (None, _) => violation(rep, c, &combo, 4, policy, &sig, &e.text(), None),
+                        }
+                        continue;
+                    }
+                };
+                rep.count(&format!("recorded:{}", combo.name()));
+                // structural counts on the IR (every path)
+                let ncw = prog.count(&|i| matches!(i, Inst::CallWasm { .. }));
+                let nci = prog.count(&|i| matches!(i, Inst::CallInterface { .. }));
+                if ncw + nci != 1 {
+                    violation(rep, c, &combo, 4, policy, "call-count", &format!("{ncw} CallWasm + {nci} CallInterface instructions emitted"), None);
+                }
+                for width in [4usize, 8] {
+                    if let Some(o) = only {
+                        if o["width"].as_u64().map(|w| w as usize != width).unwrap_or(false) {
+                            continue;
+                        }
+                    }
+                    if width == 8 && self_method && is_export(v) {
+                        rep.count("skipped:exported-method-self-pointer-at-width8");
+                        continue;
+                    }
+                    let abi = Abi::new(resolve, width);
+                    let refsig = abi.signature(&ptys, c.func.result.as_ref(), kind);
+                    for set in 0..nsets {
+                        let mut vr = rng.fork((set * 16 + width) as u64);
+                        let (params_in, result_val): (Vec<Val>, Option<Val>) = match only.and_then(|o| o.get("value")).filter(|v| v.is_object()) {
+                            Some(val) => {
+                                let ps: Option<Vec<Val>> = val["params"].as_array().map(|a| a.iter().zip(&ptys).filter_map(|(s, t)| parse_val_typed(&abi, t, s.as_str().unwrap_or("")).ok()).collect());
+                                let r = c.func.result.and_then(|t| val["result"].as_str().and_then(|s| parse_val_typed(&abi, &t, s).ok()));
+                                match ps {
+                                    Some(ps) if ps.len() == ptys.len() => (ps, r),
+                                    _ => {
+                                        rep.inconclusive("replay values do not parse");
+                                        return;
+                                    }
+                                }
+                            }
+                            None => (ptys.iter().map(|t| abi.gen_val(&mut vr, t, &gcfg, 0)).collect(), c.func.result.map(|t| abi.gen_val(&mut vr, &t, &gcfg, 0))),
+                        };
+                        rep.eval();
+                        run_one(rep, c, &combo, t, &prog, &abi, &refsig, policy, &ptys, &params_in, &result_val, self_method && is_export(v));
+                    }
+                }
+                if rep.samples.len() < rep.max_samples && nparams_flat > 16 && t == Tier::Judged {
+                    rep.sample(json!({"func": c.path, "combo": combo.name(), "flat_params": nparams_flat, "flat_results": nres_flat, "ir": shorten(&prog.dump(), 500)}));
+                }
+            }
+        }
+    }
+}
+
+#[allow(clippy::too_many_arguments)]
+fn run_one(
+    rep: &mut Report,
+    c: &Ctxt,
+    combo: &Combo,
+    t: Tier,
+    prog: &Program,
+    abi: &Abi,
+    refsig: &CoreSig,
+    policy: CanonPolicy,
+    ptys: &[Type],
+    params_in: &[Val],
+    result_val: &Option<Val>,
+    self_ptr: bool,
+) {
+    let width = abi.ptr;
+    let vals = Some((params_in, result_val));
+    let mut bad = |rep: &mut Report, class: &str, detail: &str| violation(rep, c, combo, width, policy, class, detail, vals);
+    let mut host = CallHost {
+        abi: *abi,
+        func: c.func,
+        ptys: ptys.to_vec(),
+        variant: combo.v,
+        refsig: refsig.clone(),
+        result_val: result_val.clone(),
+        got_params: None,
+        problems: vec![],
+        task_return: vec![],
+        task_return_types: vec![],
+        callee_result_block: None,
+        self_ptr,
+    };
+    let mut mem = Mem::new(width);
+    let lift_dir = combo.ll == LiftLower::LiftArgsLowerResults;
+    let mut args: Vec<MV> = vec![];
+    let mut param_record: Option<(u64, usize, usize)> = None;
+    let mut retptr_block: Option<u64> = None;
+    if lift_dir {
+        // the harness is the caller: build the core arguments per the reference
+        mem.trait_kind = BlockKind::Harness;
+        if refsig.indirect_params {
+            let (s, al) = abi.record_layout(ptys);
+            let kind = if is_export(combo.v) { BlockKind::Realloc } else { BlockKind::Harness };
+            let p = mem.alloc(s.max(1), al, kind, "param-record").unwrap();
+            for ((ty, v), o) in ptys.iter().zip(params_in).zip(abi.field_offsets(ptys)) {
+                if let Err(e) = abi.store(&mut mem, v, ty, p + o as u64) {
+                    rep.inconclusive(&format!("reference store failed: {}", shorten(&e, 80)));
+                    return;
+                }
+            }
+            param_record = Some((p, s.max(1), al));
+            args.push(MV::Core(CoreVal::from_bits(core_of(WasmType::Pointer, width), p)));
+        } else {
+            for (ty, v) in ptys.iter().zip(params_in) {
+                match abi.lower_flat(&mut mem, v, ty) {
+                    Ok(f) => args.extend(f.into_iter().map(MV::Core)),
+                    Err(e) => {
+                        rep.inconclusive(&format!("reference lower_flat failed: {}", shorten(&e, 80)));
+                        return;
+                    }
+                }
+            }
+            if self_ptr {
+                if let Some(MV::Core(c0)) = args.first().cloned() {
+                    args[0] = MV::Core(CoreVal::from_bits(core_of(WasmType::Pointer, width), c0.bits()));
+                }
+            }
+        }
+        if !is_export(combo.v) && refsig.retptr {
+            let (s, al) = abi.record_layout(&[c.func.result.unwrap()]);
+            let p = mem.alloc(s.max(1), al, BlockKind::Harness, "caller-retptr").unwrap();
+            retptr_block = Some(p);
+            args.push(MV::Core(CoreVal::from_bits(core_of(WasmType::Pointer, width), p)));
+        }
+        if args.len() != refsig.params.len() {
+            rep.inconclusive("harness: built argument count differs from the reference signature");
+            return;
+        }
+    } else {
+        args = params_in.iter().map(|v| MV::Iface(v.clone())).collect();
+    }
+
+    let (res, ev, mem) = {
+        let mut m = Machine::new(c.ctx, width, mem, &mut host);
+        m.args = args;
+        let r = m.run(&prog.body);
+        rep.count_n("machine_steps", m.ev.steps);
+        (r, m.ev.clone(), m.mem)
+    };
+    if let (Err(e), Tier::Incoherent) = (&res, t) {
+        rep.count(&format!("unsupported-undefined:{}:machine:{}", combo.name(), e.class));
+        return;
+    }
+    for (class, detail) in std::mem::take(&mut host.problems) {
+        bad(rep, &class, &detail);
+    }
+    if let Err(e) = res {
+        if e.class != "callee" || host.got_params.is_none() {
+            bad(rep, &e.class, &e.detail);
+        } else {
+            bad(rep, "callee-cannot-decode", &e.detail);
+        }
+        return;
+    }
+    // ---- (c) exactly one call
+    let calls = ev.call_wasm + ev.call_interface;
+    if calls != 1 || (lift_dir && ev.call_interface != 1) || (!lift_dir && ev.call_wasm != 1) {
+        bad(rep, "call-count", &format!("{} CallWasm and {} CallInterface executed", ev.call_wasm, ev.call_interface));
+    }
+    // ---- (f) values delivered to the callee
+    match &host.got_params {
+        Some(g) if g.as_slice() == params_in => {}
+        Some(g) => bad(rep, "params-delivered-differ", &format!("callee received ({}) but the caller passed ({})", shorten(&g.iter().map(|v| v.text()).collect::<Vec<_>>().join(", "), 300), shorten(&params_in.iter().map(|v| v.text()).collect::<Vec<_>>().join(", "), 300))),
+        None => bad(rep, "params-not-delivered", "callee never ran"),
+    }
+    if let Some(le) = mem.ledger_errors.first() {
+        bad(rep, &format!("ledger:{}", le.class), &le.detail);
+    }
+    if ev.after_return > 0 {
+        bad(rep, "instructions-after-return", &format!("{} instructions executed after Return", ev.after_return));
+    }
+    rep.count(&format!("ran:{}", combo.name()));
+    if t != Tier::Judged {
+        return;
+    }
+
+    // ---- result passing
+    let sync = !combo.a;
+    let rty = c.func.result;
+    if sync {
+        if ev.task_return != 0 || ev.returns.len() != 1 {
+            bad(rep, "return-count", &format!("{} Return and {} AsyncTaskReturn executed in a sync function", ev.returns.len(), ev.task_return));
+            return;
+        }
+        let ret = &ev.returns[0];
+        if !lift_dir {
+            // glue returns the lifted interface result
+            match (ret.as_slice(), result_val) {
+                ([], None) => {}
+                ([MV::Iface(v)], Some(w)) if v == w => {}
+                (got, want) => bad(rep, "result-delivered-differs", &format!("caller received {:?}, callee returned {:?}", got.iter().map(|g| match g { MV::Iface(v) => shorten(&v.text(), 150), o => o.kind() }).collect::<Vec<_>>(), want.as_ref().map(|v| shorten(&v.text(), 150)))),
+            }
+            // (b') ownership: lowering for a wasm import must not allocate through realloc
+            if combo.v == AbiVariant::GuestImport && mem.count(BlockKind::Realloc) != 0 {
+                bad(rep, "import-lowering-used-realloc", "parameters of a guest import call were lowered with realloc (ownership is not transferred)");
+            }
+            if combo.v == AbiVariant::GuestExport && refsig.indirect_params {
+                let (s, al) = abi.record_layout(ptys);
+                match ev.mallocs.as_slice() {
+                    [(_, ms, ma)] if (*ms, *ma) == (s, al) => {}
+                    other => bad(rep, "param-record-malloc", &format!("indirect parameter record: Malloc {other:?}, reference layout size {s} align {al}")),
+                }
+            }
+        } else {
+            let want_ret = |rep: &mut Report, bad: &mut dyn FnMut(&mut Report, &str, &str), flat: &[MV]| {
+                // flat result (<= 1 value)
+                let (Some(t), Some(v)) = (&rty, result_val) else {
+                    if !flat.is_empty() {
+                        bad(rep, "return-arity", &format!("Return with {} values for a function without result", flat.len()));
+                    }
+                    return;
+                };
+                let got: Option<Vec<CoreVal>> = flat.iter().map(|m| if let MV::Core(c) = m { Some(*c) } else { None }).collect();
+                let Some(got) = got else {
+                    bad(rep, "return-kind", "Return operand is not a core value");
+                    return;
+                };
+                let mut rmem = Mem::new(width);
+                match abi.lower_flat(&mut rmem, v, t) {
+                    Ok(rf) => {
+                        if got.len() != rf.len() {
+                            bad(rep, "return-arity", &format!("Return with {} values, reference flat result has {}", got.len(), rf.len()));
+                        } else if let Err(d) = cmp_flat(abi, t, v, &got, &mem, &rf, &rmem) {
+                            bad(rep, &format!("result:{}", d.class), &d.detail);
+                        }
+                    }
+                    Err(e) => rep.inconclusive(&format!("reference lower_flat failed: {}", shorten(&e, 80))),
+                }
+            };
+            let check_mem_result = |rep: &mut Report, bad: &mut dyn FnMut(&mut Report, &str, &str), p: u64| {
+                let (Some(t), Some(v)) = (&rty, result_val) else { return };
+                let mut rmem = Mem::new(width);
+                let (s, al) = abi.record_layout(&[*t]);
+                let rp = rmem.alloc(s.max(1), al, BlockKind::Harness, "ref").unwrap();
+                if abi.store(&mut rmem, v, t, rp).is_err() {
+                    return;
+                }
+                match cmp_mem(abi, t, v, &mem, p, &rmem, rp) {
+                    Err(d) => bad(rep, &format!("result:{}", d.class), &d.detail),
+                    Ok(_) => match abi.load(&mem, t, p) {
+                        Ok(b) if b == *v => {}
+                        Ok(b) => bad(rep, "result:reference-load-differs", &shorten(&b.text(), 200)),
+                        Err(e) => bad(rep, "result:reference-load-fails", &e),
+                    },
+                }
+            };
+            if refsig.retptr {
+                if is_export(combo.v) {
+                    // export: returns a pointer to a return area holding the result
+                    match ret.as_slice() {
+                        [MV::Core(p)] if p.ty() == core_of(WasmType::Pointer, width) => {
+                            let (s, al) = abi.record_layout(&[rty.unwrap()]);
+                            match ev.ret_areas.iter().find(|(a, _, _)| *a == p.bits()) {
+                                Some((_, rs, ra)) if (*rs, *ra) == (s, al) => {}
+                                Some((_, rs, ra)) => bad(rep, "return-area-layout", &format!("return area size {rs} align {ra}, reference {s}/{al}")),
+                                None => bad(rep, "return-pointer", "returned pointer is not the return area"),
+                            }
+                            check_mem_result(rep, &mut bad, p.bits());
+                        }
+                        other => bad(rep, "return-arity", &format!("export with indirect result returned {} values", other.len())),
+                    }
+                } else {
+                    if !ret.is_empty() {
+                        bad(rep, "return-arity", &format!("import with return pointer returned {} values", ret.len()));
+                    }
+                    check_mem_result(rep, &mut bad, retptr_block.unwrap());
+                }
+            } else {
+                want_ret(rep, &mut bad, ret);
+            }
+            // (d) caller-allocated parameter record of a sync export
+            if let (Some((p, s, al)), true) = (param_record, is_export(combo.v)) {
+                let blk = mem.allocs.iter().find(|b| b.addr == p).unwrap();
+                if blk.freed != 1 {
+                    bad(rep, "param-record-not-freed", &format!("parameter record ({s} bytes, align {al}) allocated by the caller was freed {} times", blk.freed));
+                }
+            }
+        }
+    } else {
+        // async lift: results go through task.return exactly once
+        if ev.task_return != 1 || !ev.returns.is_empty() {
+            bad(rep, "task-return-count", &format!("{} AsyncTaskReturn and {} Return executed in an async lift", ev.task_return, ev.returns.len()));
+            return;
+        }
+        if combo.v == AbiVariant::GuestImportAsync {
+            // host implementing an async import: result flat iff it fits the async flat limit,
+            // otherwise stored through the caller's return pointer and task.return takes nothing
+            let flat = rty.map(|t| abi.flatten(&t)).unwrap_or_default();
+            let want: Vec<CoreTy> = if flat.len() <= cabi_ref::MAX_FLAT_ASYNC_PARAMS { flat.clone() } else { vec![] };
+            if host.task_return_types[0] != want {
+                bad(rep, "task-return-signature", &format!("async import: task.return params {:?}, expected {:?} (flat limit {})", host.task_return_types[0], want, cabi_ref::MAX_FLAT_ASYNC_PARAMS));
+                return;
+            }
+            if flat.len() > cabi_ref::MAX_FLAT_ASYNC_PARAMS {
+                let (t, v) = (rty.unwrap(), result_val.as_ref().unwrap());
+                match abi.load(&mem, &t, retptr_block.unwrap()) {
+                    Ok(b) if b == *v => {}
+                    Ok(b) => bad(rep, "result:reference-load-differs", &shorten(&b.text(), 200)),
+                    Err(e) => bad(rep, "result:reference-load-fails", &e),
+                }
+                return;
+            }
+        } else {
+            let reftr = abi.signature(ptys, rty.as_ref(), SigKind::TaskReturn);
+            if host.task_return_types[0] != reftr.params {
+                bad(rep, "task-return-signature", &format!("task.return params {:?}, reference {:?}", host.task_return_types[0], reftr.params));
+            }
+        }
+        match (&host.task_return[0], result_val) {
+            (Ok(None), None) => {}
+            (Ok(Some(v)), Some(w)) if v == w => {}
+            (Ok(g), w) => bad(rep, "task-return-value-differs", &format!("task.return carried {:?}, callee returned {:?}", g.as_ref().map(|v| shorten(&v.text(), 150)), w.as_ref().map(|v| shorten(&v.text(), 150)))),
+            (Err(e), _) => bad(rep, "task-return-undecodable", e),
+        }
+        // results of an async lift are not handed over: no realloc allocations
+        let reallocs = mem.allocs.iter().filter(|b| b.kind == BlockKind::Realloc && Some(b.addr) != param_record.map(|p| p.0)).count();
+        if reallocs != 0 && is_export(combo.v) {
+            bad(rep, "async-result-lowered-with-realloc", &format!("{reallocs} blocks allocated through realloc while lowering task.return arguments (nobody frees them)"));
+        }
+        if let (Some((p, s, al)), true) = (param_record, is_export(combo.v)) {
+            let blk = mem.allocs.iter().find(|b| b.addr == p).unwrap();
+            if blk.freed == 0 {
+                // spec: canon lift lowers >16 flat params through realloc for async lifts too
+                rep.count("async-export-param-record-never-freed");
+                let sig = "call:async-export:indirect-param-record-never-freed";
+                if !rep.has_violation(sig) {
+                    rep.violation(
+                        sig,
+                        &format!(
+                            "async-lifted export with more than 16 flat parameters: the caller allocates the parameter record ({s} bytes, align {al}) through cabi_realloc exactly as for a sync export (canon lift: lower_flat_values with MAX_FLAT_PARAMS), but the glue emitted by abi::call never frees it (GuestDeallocate is emitted only when !async_) [func {} combo {} width {width}]",
+                            c.path,
+                            combo.name()
+                        ),
+                        replay_of(c, combo, width, policy, vals),
+                    );
+                }
+            }
+        }
+    }
+}
+
+fn main() {
+    let args = Args::parse();
+    let tier_name = args.str("tier", "quick");
+    let seed = args.seed();
+    let mut rep = Report::new("case = (function signature, ABI variant, direction, async flag, pointer width, value set); distinct = (flattened parameter shapes -> result shape) keys");
+    rep.max_samples = 4;
+    rep.assume("cabi-ref::signature is the canonical core signature (MAX_FLAT_PARAMS=16, async lower 4, MAX_FLAT_RESULTS=1, task.return flat<=16)");
+    rep.assume("combinations whose async flag contradicts the variant, and async-variant lowering through abi::call, have no defined convention: panics there are counted, successful runs get the parameter-side checks only");
+    rep.extra.insert("whitelist_explicit".into(), json!(EXPLICIT.iter().map(|w| json!({"variant": w.0, "direction": w.1, "async": w.2, "condition": w.3, "marker": w.5})).collect::<Vec<_>>()));
+    let (nrandom, nsets) = match tier_name.as_str() {
+        "thorough" => (600, 10),
+        "miri" => (0, 1),
+        _ => (50, 3),
+    };
+    let mut units = vec![];
+    let mut only: Option<serde_json::Value> = None;
+    if let Some(path) = args.get("replay") {
+        let Some(r) = load_replay(path) else {
+            rep.inconclusive("replay file unreadable");
+            rep.write(&args.out());
+            return;
+        };
+        match unit_from_replay(&r) {
+            Some(u) => units.push(u),
+            None => {
+                rep.inconclusive("replay unit cannot be rebuilt");
+                rep.write(&args.out());
+                return;
+            }
+        }
+        only = Some(r);
+    } else {
+        units.push(limits_unit());
+        units.extend(boundary_units());
+        if tier_name != "miri" {
+            units.push(dealloc_unit());
+        }
+        let mut stats = (0, 0);
+        let mut rng = Rng::new(seed.wrapping_mul(0x9E37_79B9).wrapping_add(2));
+        units.extend(random_units(&mut rng, nrandom, &mut stats));
+        rep.extra.insert("random_worlds".into(), json!(stats.0));
+    }
+    let mut work = vec![];
+    for (ui, u) in units.iter().enumerate() {
+        for f in u.funcs() {
+            if let Some(o) = &only {
+                if o["path"].as_str() != Some(&f.path) {
+                    continue;
+                }
+            }
+            work.push((ui, f));
+        }
+    }
+    if tier_name == "miri" {
+        work.truncate(25);
+    }
+    rep.extra.insert("functions_scheduled".into(), json!(work.len()));
+    let ctxs: Vec<Ctx> = units.iter().map(|u| Ctx::new(&u.resolve)).collect();
+    let nt = nthreads(&tier_name);
+    let parts = parallel(nt, |wi| {
+        let mut r = Report::new("");
+        r.max_samples = 1;
+        for (k, (ui, f)) in work.iter().enumerate() {
+            if k % nt != wi {
+                continue;
+            }
+            let c = Ctxt { unit: &units[*ui], ctx: &ctxs[*ui], path: &f.path, func: &f.func };
+            let res = catch(std::panic::AssertUnwindSafe(|| check_func(&mut r, &c, seed, nsets, only.as_ref())));
+            if let Err((msg, loc)) = res {
+                r.inconclusive(&format!("harness panicked at {}: {}", panic_site(&loc), shorten(&msg, 120)));
+            }
+        }
+        r
+    });
+    for p in parts {
+        merge(&mut rep, p);
+    }
+    rep.write(&args.out());
+}
